@@ -579,7 +579,7 @@ def run_one(choices, params):
 
 
 def prepare(tier, seed):
-    return 1500 if tier == "quick" else 120000
+    return 8000 if tier == "quick" else 120000
 
 
 def params_for(i, tier, seed):
